@@ -411,11 +411,40 @@ def fault_phase(run):
     return f"{phase}:{kc}"
 
 
+def fault_phase_of(run, fault):
+    k, desc, kind = fault
+    one = Run.__new__(Run)
+    one.fired, one.fault_ops = [fault], run.fault_ops
+    return fault_phase(one)
+
+
+def multi_fault_phase(run, mech):
+    """More than one fault fired.  For a leaked detached connection the fault that hit that
+    very connection is the cause; otherwise all faults are named in order (Exception kinds
+    collapsed, they take the same path)."""
+    if mech.startswith("detached-"):
+        leaked = {c.fake_id for c in run.rig.open_conns() if getattr(c, "detached", False)}
+        hits = [f for f in run.fired if run.fault_info.get(f[0], (0, None))[1] in leaked]
+        if hits:
+            return fault_phase_of(run, hits[-1])
+    parts = []
+    for f in run.fired:
+        ph = fault_phase_of(run, f)
+        head, _, kc = ph.rpartition(":")
+        parts.append(head + ":" + ("exception" if kc in ("error", "disconnect", "RuntimeError") else kc))
+    if mech.startswith("checkedout-nonzero") and len(parts) == 2 and parts[0].startswith("gc-reset:") \
+            and parts[1] == "close:baseexception":
+        # one defect whatever made the reset fail: the invalidation that follows a failed
+        # reset is itself interrupted while closing
+        return "gc-reset-then-close:baseexception"
+    return "+".join(parts)
+
+
 def judge_and_report(ctx, run, tag):
     fired = run.fired
     viol = sorted(run.viol, key=lambda v: 0 if v[0].startswith("detached-") else 1 if v[0].startswith("connection-open") else 2)
     for mech, text in viol[:1]:
-        ph = fault_phase(run)
+        ph = fault_phase(run) if len(fired) < 2 else multi_fault_phase(run, mech)
         if mech.endswith(":DETACHED"):
             mech = mech.replace(":DETACHED", ":reset-failed" if ph.startswith(("reset", "gc-reset")) else ":" + ph)
         elif mech.startswith("detached-"):
@@ -472,7 +501,10 @@ def enumerate_faults(ctx, config, history, pairs=0):
         if not ctx.budget_ok() or dry.npoints < 2:
             return
         a, b = sorted(rng.sample(range(dry.npoints), 2))
-        plan = {a: rng.choice(dry.points[a][2]), b: rng.choice(["error", "disconnect", "interrupt", "RuntimeError"])}
+        ka, kb = dry.points[a][2], dry.points[b][2]
+        if not ka or not kb:
+            continue                    # a point where no fault is injected (checkin listener)
+        plan = {a: rng.choice(ka), b: rng.choice(kb)}
         r = Run(ctx, config, history, plan).execute()
         ctx.count("pair_runs")
         judge_and_report(ctx, r, "pair")
@@ -500,6 +532,10 @@ def directed_cases(ctx):
         ({**base, "pool": "queue10"}, [("co", 0, "raw"), ("inv", 0), ("ci", 0), ("co", 1, "raw"), ("ci", 1)],
          "dbapi:close", 0, "interrupt"),
     ]
+    # double fault: the reset of a garbage collected checkout fails, then close() inside the
+    # resulting invalidation is interrupted
+    cases.append(({**base, "pool": "queue10"}, [("co", 0, "raw"), ("use", 0), ("drop", 0), ("co", 1, "raw"), ("ci", 1)],
+                  [("dbapi:rollback", 0, "error"), ("next-point", 0, "interrupt")], None, None))
     for config, history, site, nth, kind in cases:
         dry = Run(ctx, config, history, {}, judge=True).execute()
         ctx.count("dry_runs")
@@ -507,8 +543,14 @@ def directed_cases(ctx):
         if site is None:
             judge_and_report(ctx, dry, "directed")
             continue
-        ks = [k for k, desc, kinds in dry.points if desc == site]
-        judge_and_report(ctx, Run(ctx, config, history, {ks[nth]: kind}).execute(), "directed")
+        sites = site if isinstance(site, list) else [(site, nth, kind)]
+        plan = {}
+        for st, n, kd in sites:
+            if st == "next-point":          # the call the previous fault provokes (close)
+                plan[max(plan) + 1] = kd
+            else:
+                plan[[k for k, desc, kinds in dry.points if desc == st][n]] = kd
+        judge_and_report(ctx, Run(ctx, config, history, plan).execute(), "directed")
 
 
 def run(ctx):
